@@ -122,6 +122,34 @@ func (g *gen) startPending() {
 	}
 }
 
+// snapshot takes a snapshot of replica id at its applied index and compacts the log up to
+// keep entries below it.
+func (g *gen) snapshot(id uint64, keep uint64) {
+	n := g.c.Nodes[id]
+	st := raftsim.Inspect(n)
+	if n.Applied > n.Snapshot.Index && n.Applied >= st.FirstIndex && n.Kind != 'W' {
+		ss := pb.Snapshot{Index: n.Applied, Term: termAt(st.Entries, st.FirstIndex, st.MarkerTerm, n.Applied), Filepath: "f", FileSize: 1}
+		ss.Membership.Addresses = map[uint64]string{}
+		ss.Membership.NonVotings = map[uint64]string{}
+		ss.Membership.Witnesses = map[uint64]string{}
+		for k := range n.Mem.Voters {
+			ss.Membership.Addresses[k] = "a"
+		}
+		for k := range n.Mem.NonVotings {
+			ss.Membership.NonVotings[k] = "a"
+		}
+		for k := range n.Mem.Witnesses {
+			ss.Membership.Witnesses[k] = "a"
+		}
+		if keep >= n.Applied-n.Snapshot.Index {
+			keep = n.Applied - n.Snapshot.Index - 1
+		}
+		if ss.Term != 0 {
+			g.do(fmt.Sprintf("SNAP %d %s %d", id, fmtSS(ss), n.Applied-keep))
+		}
+	}
+}
+
 func (g *gen) update(id uint64) { g.Update(id) }
 
 func (g *gen) apply(id uint64, max int) { g.Apply(id, max) }
@@ -266,25 +294,7 @@ func generate(r *vh.Rand, steps int) (string, []string) {
 				g.do(fmt.Sprintf("RESTART %d", id))
 			case 1:
 				// snapshot at the applied index and compact
-				st := raftsim.Inspect(n)
-				if n.Applied > n.Snapshot.Index && n.Applied >= st.FirstIndex && n.Kind != 'W' {
-					ss := pb.Snapshot{Index: n.Applied, Term: termAt(st.Entries, st.FirstIndex, st.MarkerTerm, n.Applied), Filepath: "f", FileSize: 1}
-					ss.Membership.Addresses = map[uint64]string{}
-					ss.Membership.NonVotings = map[uint64]string{}
-					ss.Membership.Witnesses = map[uint64]string{}
-					for k := range n.Mem.Voters {
-						ss.Membership.Addresses[k] = "a"
-					}
-					for k := range n.Mem.NonVotings {
-						ss.Membership.NonVotings[k] = "a"
-					}
-					for k := range n.Mem.Witnesses {
-						ss.Membership.Witnesses[k] = "a"
-					}
-					if ss.Term != 0 {
-						g.do(fmt.Sprintf("SNAP %d %s %d", id, fmtSS(ss), n.Applied-uint64(r.Intn(int(min64(3, n.Applied-n.Snapshot.Index))))))
-					}
-				}
+				g.snapshot(id, uint64(r.Intn(3)))
 			default:
 				g.do(fmt.Sprintf("UN %d %d", id, 1+r.Intn(5)))
 			}
